@@ -145,6 +145,11 @@ impl Server {
         )?;
         grammar_config.update_cfg(cfg);
         let grammar_config = grammar_config.clone();
+        // The synchronous checks succeeded. Publish this result *before* the analysis thread is
+        // started, otherwise a fast analysis could publish its findings first and they would be
+        // overwritten by the empty diagnostics.
+        Self::notify_analysis_ok(connection.clone(), uri.clone(), version)
+            .map_err(|e| anyhow::anyhow!("{e}"))?;
         #[cfg(parol_verif)]
         use crate::verif_sync::thread;
         thread::spawn(move || match grammar_config.grammar_type {
@@ -201,12 +206,8 @@ impl Server {
             connection.clone(),
         ) {
             Ok(()) => {
+                // The empty diagnostics have already been published by `check_grammar`.
                 eprintln!("handle_open_document: ok");
-                Self::notify_analysis_ok(
-                    connection,
-                    params.text_document.uri,
-                    params.text_document.version,
-                )?;
             }
             Err(err) => {
                 eprintln!("handle_open_document: error");
@@ -240,12 +241,8 @@ impl Server {
             connection.clone(),
         ) {
             Ok(()) => {
+                // The empty diagnostics have already been published by `check_grammar`.
                 eprintln!("handle_change_document: ok");
-                Self::notify_analysis_ok(
-                    connection,
-                    params.text_document.uri,
-                    params.text_document.version,
-                )?;
             }
             Err(err) => {
                 eprintln!("handle_change_document: error");
